@@ -159,6 +159,7 @@ def doOp (closed : Bool) (s : Sys) (tok : String) : Sys × List String :=
     match s.step .dataRange with
     | (s', .range lo hi err) => (s', [s!"d={q}{lo}:{hi}:{errName err}"])
     | (s', _) => (s', ["d=?"])
+  | ["cx"] => doClose s none   -- the OS refuses the truncate of the ring file: closing closes all the same
   | ["c"] => doClose s none
   | ["e", c] =>
     match c.toNat? with
@@ -166,7 +167,7 @@ def doOp (closed : Bool) (s : Sys) (tok : String) : Sys × List String :=
     | none => (s, ["badop"])
   | _ => (s, ["badop"])
 
-def isCloseTok (t : String) : Bool := t == "c" || t.startsWith "e:"
+def isCloseTok (t : String) : Bool := t == "c" || t == "cx" || t.startsWith "e:"
 
 def runOps : Bool → Sys → List String → List (List String) → List (List String)
   | _, _, [], acc => acc.reverse
